@@ -994,6 +994,23 @@ class Executor:
             d = disc_of(self.deref(st, args[0]), E)
             want = {"is_none": 0, "is_some": 1, "is_ok": 0, "is_err": 1}[m.group(2)]
             return self.binop("Eq", d, C("int", want))
+        m = re.match(r"^(?:std::option::)?Option::<.*>::(unwrap_or_else|unwrap_or|unwrap_or_default)(?:::<.*>)?$", c)
+        if m and m.group(1) == "unwrap_or" and len(args) == 2:
+            self.summaries_used.add("Option::unwrap_or")
+            x = args[0]
+            return ite(self.binop("Eq", disc_of(x, E), C("int", 1)), proj(proj(x, ("v", "Some"), E), ("f", 0), E), args[1])
+        if m and m.group(1) == "unwrap_or_else" and len(args) == 2:
+            f0 = args[1]
+            while f0[0] == "addr":
+                f0 = f0[1]
+            if f0[0] == "c" and isinstance(f0[2], str) and "{closure" not in f0[2] and re.match(r"^(ZeroSized: )?[\w:<>@ ./\-,'&\[\]]+$", f0[2]):
+                # a plain function as the fallback: Some(v) -> v, None -> that function's answer
+                self.summaries_used.add("Option::unwrap_or_else with a function item")
+                x = args[0]
+                name = self.fsym(f0[2].replace("ZeroSized: ", "").strip())
+                alt = ("app", name, ())
+                st.events.append(("call", name, (), alt))
+                return ite(self.binop("Eq", disc_of(x, E), C("int", 1)), proj(proj(x, ("v", "Some"), E), ("f", 0), E), alt)
         m = re.match(r"^(?:std::option::)?Option::<.*>::(ok_or_else|ok_or)(?:::<.*>)?$", c)
         if m:
             self.summaries_used.add("Option::ok_or / ok_or_else")
